@@ -266,6 +266,42 @@ template <class Db> void run_db(const Args& a, Counters& c, int& item) {
       }
     }
   }
+  // ---- W2c: one processor shared by two zones that use the SAME ZonePolicy (rule records shared between zones): for every
+  //      year, a query on zone A and then on zone B in that year, compared with B on a fresh processor. State kept per rule or
+  //      per year without the zone in its key shows up exactly here.
+  if (only.empty() && !g_hostile) {
+    std::map<const void*, std::vector<const ZI*>> users;
+    for (uint16_t zi = 0; zi < Db::size(); zi++) {
+      const ZI* info = Db::info(zi);
+      for (uint8_t e = 0; e < info->numEras; e++) { const void* pol = info->eras[e].zonePolicy; if (pol) { auto& v = users[pol]; if (v.empty() || v.back() != info) v.push_back(info); } }
+    }
+    std::vector<uint16_t> yargs; for (uint16_t i = 0; i < g_args.size(); i++) if (g_args[i].name.size() == 5 && g_args[i].y >= 2000 && g_args[i].y <= 2049) yargs.push_back(i);   // "yNNNN" mid-year instants
+    uint64_t pairs = 0, steps = 0; long pidx = 0;
+    for (auto& kv : users) {
+      std::vector<const ZI*> us = kv.second; if (us.size() < 2) continue;
+      std::vector<const ZI*> bs = us; std::stable_sort(bs.begin(), bs.end(), [](const ZI* x, const ZI* y) { return x->numEras > y->numEras; }); if (bs.size() > 4) bs.resize(4);
+      for (const ZI* B : bs) for (size_t ai = 0; ai < us.size() && ai < 40; ai++) {
+        const ZI* A = us[ai]; if (A == B) continue;
+        if ((pidx++ % a.nshards) != a.shard) continue;
+        pairs++;
+        for (uint16_t ya : yargs) for (uint8_t opc : {(uint8_t)OP_UTC, (uint8_t)OP_ABBREV}) {
+          typename Db::Processor shared; TimeZone ta = TimeZone::forZoneInfo(A, &shared), tb = TimeZone::forZoneInfo(B, &shared);
+          alarm(60); iso_note(fmt("policy-sharing pair %s then %s arg %s", Db::name(A), Db::name(B), g_args[ya].name.c_str()));
+          (void)observe(ta, OP_UTC, g_args[ya]);
+          std::string got = observe(tb, opc, g_args[ya]);
+          typename Db::Processor fresh; TimeZone tf = TimeZone::forZoneInfo(B, &fresh);
+          std::string want = observe(tf, opc, g_args[ya]);
+          steps++;
+          // the complete cache content (every transition of the year) must equal the fresh processor's, not only this one answer
+          if (got == want && proc_key(shared) != proc_key(fresh)) { got = "cache:" + proc_key(shared); want = "cache:" + proc_key(fresh); }
+          if (got != want) violation(g_pid + ":" + Db::tag() + ":shared-policy-pair:history-dependent:" + OPN[opc],
+              fmt("{\"world\":\"two zones using one ZonePolicy on one processor\",\"history\":\"%s.getUtcOffset(%s) ; %s.%s(%s)\",\"got\":%s,\"fresh_object\":%s}", Db::name(A), g_args[ya].name.c_str(), Db::name(B), OPN[opc], g_args[ya].name.c_str(), jstr(got).c_str(), jstr(want).c_str()));
+        }
+      }
+    }
+    alarm(0);
+    c.add("policy_sharing_pairs", pairs); c.add("executions", steps); c.add("transitions", steps);
+  }
   for (auto& j : jobs) {
     if ((item++ % a.nshards) != a.shard) continue;
     Counters cc;
